@@ -1,4 +1,14 @@
 ---------------------------- MODULE Gen_Gate ----------------------------
 EXTENDS Gate, Json
 Emit == (Len(hist) = MaxOps) => PrintT(<<"BEHAVIOUR", ToJson(hist)>>)
+(* the life of one task in every order of its events: issued, (handed out | answered with a callback of class c1) in either
+   order or only one of them, then any callback c2 with the same id from the same or the other agent, and with id 0 *)
+LifeNext == \/ hist = <<>> /\ \E a \in Agents : Issue(a, 1)
+            \/ Len(hist) \in {1, 2} /\ (\A i \in 1..Len(hist) : hist[i].op # "HandOut") /\ HandOut(hist[1].a)
+            \/ Len(hist) \in {1, 2} /\ (\A i \in 1..Len(hist) : hist[i].op # "Callback") /\ \E c \in Classes : Callback(hist[1].a, 1, c)
+            \/ Len(hist) \in {2, 3} /\ hist[Len(hist)].op # "Issue" /\ (Len(hist) = 3 \/ hist[2].op = "Callback")
+                 /\ (\E i \in 1..Len(hist) : hist[i].op = "Callback") /\ Len(hist) < MaxOps
+                 /\ \E a \in Agents, r \in {0, 1}, c \in Classes : Callback(a, r, c) /\ hist'[Len(hist')].op = "Callback" /\ Len(hist) >= 2
+LifeSpec == Init /\ [][LifeNext]_vars
+EmitLife == (Len(hist) >= 3 /\ hist[Len(hist)].op = "Callback" /\ Cardinality({i \in 1..Len(hist) : hist[i].op = "Callback"}) = 2) => PrintT(<<"BEHAVIOUR", ToJson(hist)>>)
 =============================================================================
